@@ -128,10 +128,16 @@ fn all_buckets_empty_except(r: &Rasterizer, keep: i32) -> bool {
 // @+ desc="add_edge for a line with quarter-grid end points (x in ±64 px, y in -4..+20 px, surface 4x4): top/bottom ordering, winding = +1 if drawn downwards else -1, (x2,y2) = bottom end; horizontal, wholly-above and wholly-below edges leave no trace (no bucket, bounds unchanged); otherwise the edge is linked into bucket max(y_top,0) only, fullx = (x_top<<14) + max(0,-y_top)*slope, slope = trunc((dx<<14)/dy) stated by multiplication (|slope*dy| <= |dx<<14| < |slope*dy| + dy, same sign), shift = 0, and the bounds grow to cover the edge: top<=y_top>>2, bottom>=(y_bot+3)>>2, left<=min x>>2, right>=(max x+3)>>2; an edge clipped away after stepping above the surface is dropped"
 #[kani::proof]
 #[kani::unwind(18)]
-fn k_add_edge_line() {
+fn k_add_edge_line() { add_edge_line_contract(256); }
+// @ob id=K.add_edge_line_wide props=C01,C07 kind=bounded:y_top>=-16 tier=thorough timeout=3000 fns=Rasterizer::add_edge
+// @+ desc="add_edge for a line, same contract as K.add_edge_line over the full working range in x: quarter-grid end points with x in ±4000 px (far left / right of the 4x4 surface), y in -4..+20 px"
+#[kani::proof]
+#[kani::unwind(18)]
+fn k_add_edge_line_wide() { add_edge_line_contract(16000); }
+fn add_edge_line_contract(xr: i32) {
     let mut r = Rasterizer::new(RH, RH);
     let sx: i32 = kani::any(); let sy: i32 = kani::any(); let ex: i32 = kani::any(); let ey: i32 = kani::any();
-    kani::assume(sx >= -256 && sx <= 256 && ex >= -256 && ex <= 256 && sy >= -16 && sy <= 80 && ey >= -16 && ey <= 80);
+    kani::assume(sx >= -xr && sx <= xr && ex >= -xr && ex <= xr && sy >= -16 && sy <= 80 && ey >= -16 && ey <= 80);
     r.add_edge(qpt(sx, sy), qpt(ex, ey), false, Point::new(0., 0.));
     let down = !(ey < sy);
     let (xt, yt, xb, yb) = if down { (sx, sy, ex, ey) } else { (ex, ey, sx, sy) };
